@@ -10,7 +10,8 @@ from vf.gen import pick_weighted
 from props import _b17 as U
 
 ID = "C45"
-THEOREMS = []
+THEOREMS = ["C45_applies", "C45_lines_are_the_versions", "C45_applies_ctx0_refuted", "C45_applies_ctx0_partial",
+            "C45_counts", "C45_changes_preserved", "C45_numstat"]
 MODEL_FILES = ["Unified.v"]
 MODELLED = ("plumbing/format/diff/unified_encoder.go: UnifiedEncoder.Encode, writeFilePatchHeader, appendPathLines, "
             "hunksGenerator.Generate/processHunk/addLineNumbers/processEqualsLines, splitLines, hunk.writeTo/AddOp, op.writeTo; "
